@@ -1,7 +1,8 @@
 (* Properties_C09.v -- statements only.  C09 part (a): FMG interpolation.  Part (b), the
    nested-iteration start-up, is in the cycle model (see below when built). *)
 From Coq Require Import List ZArith Bool Reals.
-From GMGP Require Import Scalar ScalarR InterpDefs InterpProofs InterpProofs2.
+From GMGP Require Import Scalar ScalarR InterpDefs InterpProofs InterpProofs2 StencilTie InterpTie.
+From GMGPGen Require Import StencilGen.
 Import ListNotations.
 Local Open Scope R_scope.
 
@@ -39,6 +40,21 @@ Theorem C09_FMG_fallback_only_next_to_boundary : forall nr rad i, (0 <= i < nr)%
                    [((Z.quot i 2 - 1)%Z, a); (Z.quot i 2, b); ((Z.quot i 2 + 1)%Z, c); ((Z.quot i 2 + 2)%Z, d)]
               else [(Z.quot i 2, 1)].
 Proof. exact FMG_fallback_only_next_to_boundary. Qed.
+
+(* ---- the FMG interpolation as translator T3 regenerates it from the macro FINE_NODE_FMG_INTERPOLATION: one write per fine node,
+   result[(i,j)] := (row (i,j) of the model FMG_row) . x, where the coarse grid's spacing arrays (hcf, kcf) are the sums of the two fine
+   spacings they span (coarsening keeps every second node, C17).  So the theorems of this file (coarse identity, constants, cubic
+   exactness, linear fall-back only next to the boundaries) are statements about what fmg_interpolation.cpp says now. ---- *)
+Theorem C09_generated_fmg_interpolation_is_model :
+  forall (nr nth : Z) (h k hcf kcf : Z -> R),
+  (4 <= nth)%Z -> Z.even nth = true -> (5 <= nr)%Z ->
+  (forall x, 0 < h x)%R -> (forall x, 0 < k x)%R ->
+  (forall c : Z, hcf c = (h (2 * c)%Z + h (2 * c + 1)%Z)%R) ->
+  (forall c : Z, (0 <= c < Z.quot nth 2)%Z -> kcf c = (k (2 * c)%Z + k (2 * c + 1)%Z)%R) ->
+  forall (x : Z -> Z -> R) (i j : Z), (0 <= i < nr)%Z -> (0 <= j < nth)%Z ->
+  @gen_fmg_interpolation Rsc nr nth (Z.quot nth 2) h k hcf kcf x i j =
+  [ (((i, j), W_result_WAssign), @apply_row2 Rsc (@FMG_row Rsc nr nth h k i j) x) ].
+Proof. exact gen_fmg_interpolation_is_model. Qed.
 
 Print Assumptions C09_lagrange4_exact_for_cubics.
 Print Assumptions C09_FMG_cubic_in_r.
